@@ -144,7 +144,8 @@ Inductive o_hop :=
 | SNew (uniq : bool) (kvs : list pair)
 | SCopy (i : nat) (s : bool)
 | SOp (i : nat) (s : bool) (op : o_op)
-| SUpdFrom (ior : bool) (i : nat) (s : bool) (j : nat) (t : bool).
+| SUpdFrom (ior : bool) (i : nat) (s : bool) (j : nat) (t : bool)
+| SFromkeys (keys : list nat) (v : nat).
 
 (* a freshly built OneToOne(pairs): one-to-one, inside dict(pairs), and every
    value of dict(pairs) is kept under one of its keys *)
@@ -193,6 +194,17 @@ Definition o_hop_ok (before : list oview) (hop : o_hop) (res : sres) (after : li
           o_op_ok (o_rel s b) (if ior then SIor (o_rel t src) else SUpdate (o_rel t src)) res (o_rel s a)
       | _, _, _ => false
       end
+  | SFromkeys keys v =>       (* every key set to v in turn on a fresh object: only the last distinct key keeps v *)
+      let kvs := map (fun k => (k, v)) keys in
+      if existsb pair_unhashable kvs
+      then sres_is res (SRaise TypeError) && list_eqb oview_eqb before after
+      else
+        sres_is res (SOk SNone) &&
+        list_eqb oview_eqb before (firstn (length before) after) &&
+        match skipn (length before) after with
+        | [w] => oto_healthy w && same_set (ov_fwd w) (r_update [] kvs)
+        | _ => false
+        end
   end.
 
 (* ---------------------------------------------------------------------- *)
